@@ -261,6 +261,8 @@ func runCheck(id, tier string, verbose bool, only string, workers int, noval boo
 		tierN = 1
 	}
 	g.tier = tierN
+	g.crossStats = &SolverStats{}
+	g.crossCheck = tier == "thorough" && os.Getenv("VERIF_NOCROSS") == ""
 	stats := &SolverStats{}
 	var results []*HarnessResult
 	var problems []string
@@ -571,6 +573,10 @@ func writeEvidence(spec *CheckSpec, tier string, seed int, results []*HarnessRes
 	}
 	if g != nil {
 		cov["load_and_ssa_build_s"] = g.loadSecs
+		if g.crossCheck {
+			cov["solver_cross_check"] = map[string]interface{}{"solvers": "z3 5.1.0 (z3-new), cvc5 1.0.3", "assertion_batches_confirmed_unsat": g.crossAgree, "disagreements": g.crossDisagree,
+				"cross_solver_time_s": float64(g.crossStats.Nanos) / 1e9}
+		}
 	}
 	ev := map[string]interface{}{
 		"property_id": spec.ID, "tier": tier, "seed": seed, "level": "model_checking",
